@@ -101,6 +101,7 @@ Fixpoint sexp_val (fuel : nat) (x : sexp) : option gval :=
         else if atom_is t "str" then option_map (fun b => GStringer (Some b)) (atom_bytes v)
         else if atom_is t "strptr" then option_map (fun b => GStringer (Some b)) (atom_bytes v)
         else if atom_is t "jnum" then option_map (fun b => GStringer (Some b)) (atom_bytes v)
+        else if atom_is t "strslice" then option_map (fun b => GStringer (Some b)) (atom_bytes v)
         else if atom_is t "o" then option_map GOther (atom_N v)
         else None
     | SList (Atom t :: kvs) =>
@@ -309,6 +310,18 @@ Definition run_case (x : sexp) : bytes :=
         match atom_bytes cause with
         | Some cb => run_nerr id cb msgs ops
         | None => id ++ bad
+        end
+      else id ++ bad
+  | SList [Atom k; Atom id; Atom ra; Atom rb; o] =>
+      (* two evaluators alive together: A, B, A on the same object *)
+      if atom_is k "ileave" then
+        match atom_bytes ra, atom_bytes rb, sexp_obj o with
+        | Some a, Some b, Some ob =>
+            let pa := run go_lower a ob in
+            let pb := run go_lower b ob in
+            let p1 (r : outcome) := pbool (o_verdict r) ++ [44] ++ perr (o_err r) ++ [44] ++ pdbg (o_dbg r) in
+            id ++ kv "out" (join [59] [p1 pa; p1 pb; p1 pa])
+        | _, _, _ => id ++ bad
         end
       else id ++ bad
   | SList [Atom k; Atom id; Atom rule; o] =>
